@@ -271,11 +271,11 @@ class PolyDomain:
         return w
 
     def div(self, a, b):
+        if b.is_const() and not b.t:
+            raise Unsupported("division by the constant zero")       # also 0/0: the real code returns NaN there
         if not a.t:
             return a
         if b.is_const():
-            if not b.t:
-                raise Unsupported("division by the constant zero")
             return a.scale(1 / b.cval())
         if self._has_inf(b):
             if len(b.t) == 1 and not self._has_inf(a):
@@ -562,6 +562,11 @@ class PolyDomain:
             # case assumption diag(R) > 0; the other sign patterns are its images under (Q, R) -> (Q D, D R)
             for i in range(n):
                 self.pos.add(list(R[i, i].vars())[0])
+        # a column of M that is identically zero forces the same column of R to vanish (its squared norm is (R^T R)_jj = 0)
+        for j in range(n):
+            if all(not x.t for x in M[:, j]):
+                for i in range(n):
+                    R[i, j] = Poly()
         G = M.T.dot(M) if M.size else None
         RtR = R.T.dot(R)
         for i in range(n):
@@ -752,7 +757,10 @@ class FloatDomain:
         T = np.tril(A) if lower else np.triu(A)
         if transpose_a:
             T = T.T
-        X = np.linalg.solve(T, B) if left_side else np.linalg.solve(T.T, B.T).T
+        try:
+            X = np.linalg.solve(T, B) if left_side else np.linalg.solve(T.T, B.T).T
+        except np.linalg.LinAlgError:
+            X = np.full(np.shape(B), np.nan)
         return X.astype(object)
 
     def solve(self, A, B):
